@@ -776,7 +776,8 @@ def step (s : St) (line : String) : St × String :=
           (s, s!"{m}\t{impl}\t{blockVerdict half false W H straight bw bh col row ww wh impl}")
         | none => (s, bad)
       | _, _, _ => (s, bad)
-    else if kind = "half" ∨ kind = "full" ∨ kind = "halfp" ∨ kind = "fullp" ∨ kind = "halfg" ∨ kind = "fullg" ∨ kind = "halfq" ∨ kind = "fullq" then
+    else if kind = "half" ∨ kind = "full" ∨ kind = "halfp" ∨ kind = "fullp" ∨ kind = "halfg" ∨ kind = "fullg" ∨ kind = "halfq" ∨ kind = "fullq"
+        ∨ kind = "halfs" ∨ kind = "fulls" then  -- (halfs / fulls: a crop of a larger image, `Bounds().Min` not the origin — the same image, F420)
       match natList? [W, H, bw, bh, col, row], ww.toInt?, wh.toInt? with
       | some [W, H, bw, bh, col, row], some ww, some wh =>
         match parsePixels W H hexs with
